@@ -67,3 +67,68 @@ func coqNamedRef(rootPkg, local string) string {
 }
 
 var _ = strings.TrimSpace
+
+// coqValue renders a value tree dumped by the test binary (driver.go.txt:dumpValue) as a term of Sem/GoVal.v.
+func coqValue(raw json.RawMessage) (string, error) {
+	var n struct {
+		T  string               `json:"t"`
+		B  bool                 `json:"b"`
+		S  string               `json:"s"`
+		K  string               `json:"k"`
+		V  json.RawMessage      `json:"v"`
+		J  json.RawMessage      `json:"j"`
+		L  []json.RawMessage    `json:"l"`
+		KV [][2]json.RawMessage `json:"kv"`
+	}
+	if err := json.Unmarshal(raw, &n); err != nil {
+		return "", err
+	}
+	kvs := func() (string, error) {
+		var items []string
+		for _, p := range n.KV {
+			var k string
+			if err := json.Unmarshal(p[0], &k); err != nil {
+				return "", err
+			}
+			v, err := coqValue(p[1])
+			if err != nil {
+				return "", err
+			}
+			items = append(items, fmt.Sprintf("(%s, %s)", coqStr(k), v))
+		}
+		return coqList(items), nil
+	}
+	switch n.T {
+	case "bool":
+		return "(VBool " + coqBool(n.B) + ")", nil
+	case "num":
+		return "(VNum " + coqStr(n.S) + ")", nil
+	case "str":
+		return "(VStr " + coqStr(n.S) + ")", nil
+	case "nil":
+		return "VNil", nil
+	case "list":
+		var items []string
+		for _, x := range n.L {
+			v, err := coqValue(x)
+			if err != nil {
+				return "", err
+			}
+			items = append(items, v)
+		}
+		return "(VList " + coqList(items) + ")", nil
+	case "map":
+		s, err := kvs()
+		return "(VMap " + s + ")", err
+	case "obj":
+		s, err := kvs()
+		return "(VObj " + s + ")", err
+	case "union":
+		v, err := coqValue(n.V)
+		return fmt.Sprintf("(VUnion %s %s)", coqStr(n.K), v), err
+	case "any":
+		j, err := coqJSON(n.J)
+		return "(VAny " + j + ")", err
+	}
+	return "", fmt.Errorf("unknown value node %q", n.T)
+}
